@@ -142,6 +142,52 @@ def runSplit (policy : Policy K) (mode : Mode) (init : List (K × K))
       runRestart true policy mode { klog := r.disk.klog, facs := shuffle r.disk.facs } (-1) m))
     (some (runFresh policy mode init n))
 
+/-! ### the selection rule of run()
+
+      Kmax = np.array([K.max for K in K_list]).T                 # K.max = K._max * K.factor,  K._max = result.max
+      select_points = set().union(*(np.argsort(Km)[-adpt_fac:] for Km in Kmax))
+
+  `crit r` is the vector `result.max` (one entry per refinement criterion) of a K-point whose result is `r`: a
+  function of the stored result, pickled as `_max`.  `argsort` is numpy's argsort, here ANY function from the list of
+  scores to a list of positions.  What is done with the selected points (division, symmetry merging; geometry) stays
+  an arbitrary function `expand` of the selection and the list. -/
+
+/-- row `c` of `Kmax`: criterion `c` of every K-point times its weight -/
+def kmaxRow (crit : Rat → List Rat) (pts : List (KP Rat)) (c : Nat) : List Rat :=
+  pts.map (fun p => (crit p.r).getD c 0 * p.f)
+
+/-- `a[-k:]` -/
+def lastK (k : Nat) (l : List Nat) : List Nat := l.drop (l.length - k)
+
+/-- `set().union(...)`: the selected positions without repetition (first occurrence kept) -/
+def selectPoints (argsort : List Rat → List Nat) (crit : Rat → List Rat) (ncrit adptFac : Nat)
+    (pts : List (KP Rat)) : List Nat :=
+  ((List.range ncrit).flatMap (fun c => lastK adptFac (argsort (kmaxRow crit pts c)))).eraseDups
+
+/-- the refinement decision of run() -/
+def selectionPolicy (argsort : List Rat → List Nat) (crit : Rat → List Rat) (ncrit adptFac : Nat)
+    (expand : List Nat → List (KP Rat) → List (RefOp Rat)) : Policy Rat :=
+  fun pts => expand (selectPoints argsort crit ncrit adptFac pts) pts
+
+/-- what `np.argsort` promises: a permutation of the positions that puts the scores in ascending order
+    (nothing about the order of equal scores: the default sort is not stable) -/
+def IsArgsort (v : List Rat) (p : List Nat) : Prop :=
+  p.Perm (List.range v.length) ∧ (p.map (fun i => v.getD i 0)).Pairwise (fun a b => a ≤ b)
+
+/-- a stable argsort (insertion by score, earlier position first among equal scores) — one admissible `np.argsort` -/
+def insertIdx (v : List Rat) (i : Nat) : List Nat → List Nat
+  | [] => [i]
+  | j :: l => if v.getD i 0 < v.getD j 0 then i :: j :: l else j :: insertIdx v i l
+
+def argsortStable (v : List Rat) : List Nat := (List.range v.length).foldl (fun acc i => insertIdx v i acc) []
+
+/-- another admissible one: later position first among equal scores -/
+def insertIdxRev (v : List Rat) (i : Nat) : List Nat → List Nat
+  | [] => [i]
+  | j :: l => if v.getD i 0 ≤ v.getD j 0 then i :: j :: l else j :: insertIdxRev v i l
+
+def argsortRev (v : List Rat) : List Nat := (List.range v.length).foldl (fun acc i => insertIdxRev v i acc) []
+
 /-! ### in-memory state that is NOT persisted
 
   A process may carry state `h : H` that is not written to the restart files (a cache, a counter, ...).  It
@@ -210,6 +256,15 @@ def handle : List String → String
     match parseRats? fs, parseNat? n with
     | some fs, some n =>
       showRats ((setFactors ((List.replicate n (0 : Rat)).map (fun r => KP.fresh r 1)) fs).map (·.f))
+    | _, _ => "bad-op"
+  | ["select", k, rows] =>
+    -- rows of Kmax (criterion x K-point, already multiplied by the weights); answer: selectPoints with the stable argsort
+    match parseNat? k, parseRatss? rows with
+    | some k, some rows =>
+      let n := (rows.headD []).length
+      let pts : List (KP Rat) := (List.range n).map (fun (i : Nat) => KP.fresh ((i : Int) : Rat) 1)
+      let crit : Rat → List Rat := fun r => rows.map (fun row => row.getD r.num.toNat 0)
+      showNats (selectPoints argsortStable crit rows.length k pts)
     | _, _ => "bad-op"
   | ["campaign", mode, rs, fs, iters, n, more, shuf] =>
     match parseMode? mode, parseRats? rs, parseRats? fs, parseIters? iters, parseNat? n, parseNats? more with
